@@ -8,25 +8,145 @@ package match
 //@ func (Bindings).Copy returns acc
 //@   safety C07, C03
 //@   modifies[C03,C06,C12] nothing
-//@   ensures[C03,C06] fresh: acc != nil && fresh(acc)
-//@   ensures[C01,C06,C18] same: forall k string :: ((k in acc) <==> (k in bs)) && ((k in bs) ==> acc[k] == bs[k])
+//@   ensures fresh: acc != nil && fresh(acc)
+//@   ensures same: forall k string :: ((k in acc) <==> (k in bs)) && ((k in bs) ==> acc[k] == bs[k])
 //@   loop 0 modifies acc
 //@   loop 0 invariant visited: forall k string :: seen(0)[k] ==> (k in bs)
 //@   loop 0 invariant dom: forall k string :: (k in acc) <==> seen(0)[k]
 //@   loop 0 invariant val: forall k string :: (k in acc) ==> acc[k] == bs[k]
-
-// Match: proved in this package (C01, C03); used by core.(*Branch).try.
-//@ func (*Matcher).Match returns bss, err
-//@   trusted
-//@   modifies[C03,C06,C12] nothing
-//@   ensures[C01,C03,C06,C18] results: err == nil ==> forall i int :: 0 <= i && i < len(bss) ==> bss[i] != nil && fresh(bss[i]) && ext(bindings, bss[i])
 
 //@ func (Bindings).Extendm returns r, err
 //@   safety C07
 //@   requires bs != nil
 //@   modifies bs
 //@   ensures same: err == nil ==> r == bs
-//@   ensures[C06,C07] noerr: len(pairs) % 2 == 0 && (forall j int :: 0 <= j && j < len(pairs) && j % 2 == 0 ==> is(pairs[j], string)) ==> err == nil
+//@   ensures noerr: len(pairs) % 2 == 0 && (forall j int :: 0 <= j && j < len(pairs) && j % 2 == 0 ==> is(pairs[j], string)) ==> err == nil
 //@   ensures[C18] others: forall k string :: old(k in bs) && (forall j int :: 0 <= j && j < len(pairs) && j % 2 == 0 ==> pairs[j] != box(k)) ==> (k in bs) && bs[k] == old(bs[k])
 //@   loop 0 invariant 0 <= i && i % 2 == 0 && i <= len(pairs)
 //@   loop 0 invariant[C18] kept: forall k string :: old(k in bs) && (forall j int :: 0 <= j && j < i && j % 2 == 0 ==> pairs[j] != box(k)) ==> (k in bs) && bs[k] == old(bs[k])
+
+// ---------------------------------------------------------------------------
+// The matcher. `root` is a bindings map that nobody modifies during the call
+// and that every working set extends (the caller's bindings); `own` is the
+// private copy made at the API boundary, which match may extend in place;
+// `mark` is the allocation counter when that copy was taken. A working set is
+// `okb`: non-nil, an extension of root that adds only variable names, and
+// either the private copy or a map allocated since.
+//@ spec onlyVars(root, m) = forall k string :: (k in m) && !(k in root) ==> hasPrefix(k, "?")
+//@ spec okb(m, root, own, mark) = m != nil && ext(root, m) && onlyVars(root, m) && (m == own || ref(m) >= mark) && m != root
+//@ spec okbs(bss, root, own, mark) = forall i int :: 0 <= i && i < len(bss) ==> okb(bss[i], root, own, mark)
+
+//@ func copyMap returns target
+//@   safety C01
+//@   modifies nothing
+//@   ensures target != nil && fresh(target)
+//@   loop 0 modifies target
+
+//@ func copyBindingss returns acc
+//@   safety C01
+//@   logical root map[string]interface{}
+//@   logical own map[string]interface{}
+//@   logical mark ref
+//@   requires mark <= allocmark() && okbs(bss, root, own, mark)
+//@   modifies nothing
+//@   ensures len(acc) == len(bss) && (cap(acc) == 0 || fresh(acc))
+//@   ensures forall i int :: 0 <= i && i < len(acc) ==> fresh(acc[i]) && okb(acc[i], root, own, mark)
+//@   loop 0 invariant len(acc) == rangeindex + 1 && rangeindex < len(bss) && (cap(acc) == 0 || fresh(acc))
+//@   loop 0 invariant forall i int :: 0 <= i && i < len(acc) ==> fresh(acc[i]) && okb(acc[i], root, own, mark)
+
+//@ spec okbss(bsss, root, own, mark) = forall x int :: 0 <= x && x < len(bsss) ==> okbs(bsss[x], root, own, mark)
+
+//@ func combine returns nbss
+//@   safety C01
+//@   logical root map[string]interface{}
+//@   logical own map[string]interface{}
+//@   logical mark ref
+//@   requires okbss(bsss, root, own, mark)
+//@   modifies nothing
+//@   ensures okbs(nbss, root, own, mark)
+//@   loop 0 invariant okbs(nbss, root, own, mark) && (cap(nbss) == 0 || fresh(nbss))
+
+//@ func (*Matcher).getVariable returns v, acc, err
+//@   safety C01
+//@   requires m != nil
+//@   modifies[C03,C12] nothing
+//@   ensures cap(acc) == 0 || fresh(acc)
+//@   loop 0 invariant cap(acc) == 0 || fresh(acc)
+
+//@ func (*Matcher).checkForBadPropertyVariables returns err
+//@   safety C01
+//@   requires m != nil
+//@   modifies[C03,C12] nothing
+
+//@ func (*Matcher).inequal returns using, bss, err
+//@   safety C01
+//@   logical root map[string]interface{}
+//@   logical own map[string]interface{}
+//@   logical mark ref
+//@   requires m != nil && len(v) > 0 && hasPrefix(v, "?")
+//@   requires okb(bs, root, own, mark)
+//@   modifies bs
+//@   ensures err == nil
+//@   ensures okbs(bss, root, own, mark)
+//@   ensures okb(bs, root, own, mark)
+
+// Match: the public entry point copies the bindings, so nothing given is modified.
+//@ globalinv DefaultMatcher: DefaultMatcher != nil
+
+//@ func (*Matcher).Match returns bss, err
+//@   safety C01
+//@   requires m != nil
+//@   let root = bindings
+//@   modifies[C03,C06,C12] nothing
+//@   ensures[C01,C03,C06,C18] results: err == nil ==> forall i int :: 0 <= i && i < len(bss) ==> bss[i] != nil && fresh(bss[i]) && ext(bindings, bss[i]) && onlyVars(bindings, bss[i])
+
+//@ func (*Matcher).matchWithBindingss returns acc, err
+//@   safety C01
+//@   logical root map[string]interface{}
+//@   logical own map[string]interface{}
+//@   logical mark ref
+//@   requires mark <= allocmark() && okbs(bss, root, own, mark)
+//@   modifies[C03,C12] nothing
+//@   ensures err == nil ==> (cap(acc) == 0 || fresh(acc)) && forall j int :: 0 <= j && j < len(acc) ==> fresh(acc[j]) && okb(acc[j], root, own, mark)
+//@   loop 0 invariant (cap(acc) == 0 || fresh(acc)) && forall j int :: 0 <= j && j < len(acc) ==> fresh(acc[j]) && okb(acc[j], root, own, mark)
+
+//@ func (*Matcher).arraycatMatch returns nbsss, nfxas, err
+//@   safety C01
+//@   logical root map[string]interface{}
+//@   logical own map[string]interface{}
+//@   logical mark ref
+//@   requires mark <= allocmark() && len(bsss) <= len(fxas) && okbss(bsss, root, own, mark)
+//@   modifies[C03,C12] nothing
+//@   ensures err == nil ==> len(nbsss) == len(nfxas) && okbss(nbsss, root, own, mark)
+//@   ensures err == nil ==> forall x int :: 0 <= x && x < len(nfxas) ==> nfxas[x] != nil && fresh(nfxas[x])
+//@   ensures err == nil ==> forall x int, y int :: 0 <= x && x < len(nbsss) && 0 <= y && y < len(nbsss[x]) ==> fresh(nbsss[x][y])
+//@   loop 0 invariant len(nbsss) == len(nfxas) && okbss(nbsss, root, own, mark) && (cap(nbsss) == 0 || fresh(nbsss)) && (cap(nfxas) == 0 || fresh(nfxas))
+//@   loop 0 invariant forall x int :: 0 <= x && x < len(nfxas) ==> nfxas[x] != nil && fresh(nfxas[x])
+//@   loop 0 invariant forall x int, y int :: 0 <= x && x < len(nbsss) && 0 <= y && y < len(nbsss[x]) ==> fresh(nbsss[x][y])
+//@   loop 1 invariant len(nbsss) == len(nfxas) && okbss(nbsss, root, own, mark) && (cap(nbsss) == 0 || fresh(nbsss)) && (cap(nfxas) == 0 || fresh(nfxas))
+//@   loop 1 invariant forall x int :: 0 <= x && x < len(nfxas) ==> nfxas[x] != nil && fresh(nfxas[x])
+//@   loop 1 invariant forall x int, y int :: 0 <= x && x < len(nbsss) && 0 <= y && y < len(nbsss[x]) ==> fresh(nbsss[x][y])
+
+//@ func (*Matcher).mapcatMatch returns res, err
+//@   safety C01
+//@   logical root map[string]interface{}
+//@   logical own map[string]interface{}
+//@   logical mark ref
+//@   requires m != nil && mark <= allocmark() && okbs(bss, root, own, mark)
+//@   modifies[C03,C12] nothing
+//@   ensures err == nil ==> okbs(res, root, own, mark)
+//@   loop 0 invariant okbs(bss, root, own, mark)
+//@   loop 1 invariant okbs(bss, root, own, mark) && okbs(gather, root, own, mark) && (cap(gather) == 0 || fresh(gather))
+
+// match: works on the private copy `bindings` (may extend it in place).
+//@ func (*Matcher).match returns bss, err
+//@   safety C01
+//@   logical root map[string]interface{}
+//@   let own = bindings
+//@   let mark = allocmark()
+//@   requires m != nil
+//@   requires bindings != nil ==> ext(root, bindings) && onlyVars(root, bindings) && bindings != root
+//@   modifies[C03,C12] bindings
+//@   ensures[C01,C03] results: err == nil ==> okbs(bss, root, own, mark)
+//@   loop 1 invariant okbss(bsss, root, own, mark) && len(bsss) <= len(fxas)
+//@   loop 1 invariant forall x int :: 0 <= x && x < len(fxas) ==> fxas[x] != nil && fresh(fxas[x])
